@@ -9,3 +9,6 @@ import AGV.Props.C12
 #print axioms AGV.Props.C12.c12_unbounded_nesting
 #print axioms AGV.Props.C12.c12_unbounded_nesting_slope
 #print axioms AGV.Props.C12.c12_spread_violated_by_spreadsExpanded
+#print axioms AGV.Props.C12.c12_directives_walk_after_depth_check
+#print axioms AGV.Props.C12.c12_prechecks_never_overflow
+#print axioms AGV.Props.C12.c12_prechecks_order_needed
